@@ -75,7 +75,7 @@ def preempt_case(draw, tier):
         nbg = draw(st.integers(2, 7))
     for _ in range(nbg):
         n = draw(st.integers(3, 8)) if full else draw(st.integers(2, 6))
-        ops = [{"parents": [i - 1] if i else [], "segs": [seg(1 if full else 2)]} for i in range(n)]
+        ops = [{"parents": [i - 1] if i else [], "segs": [seg(1 if full else 2) for _ in range(draw(st.sampled_from([1, 1, 2, 3])))]} for i in range(n)]
         arrivals.append([0 if full else draw(st.integers(0, 2)), {"prio": draw(st.sampled_from([3, 2])), "ops": ops}])
     burst = draw(st.integers(1, 8))
     waves = draw(st.integers(0, 2)) == 0
